@@ -47,7 +47,7 @@ package crashmonitor
 // Every line is looked at: the scan advances by exactly one line per turn, so no
 // line (in particular not the blank line or the "created by" line that ends the
 // running goroutine's block) is stepped over without being classified.
-//@   at loop 1 end: assert 0 <= i && i < len(lines) && line == lines[i]
+//@   at loop 1 end: assert i == iterentry(i)+1
 //@   loop 1: invariant 0 <= i && i <= len(lines)
 //@   loop 1: decreases len(lines)-i
 //@   modifies $child, $rawpc
